@@ -475,9 +475,12 @@ func (e *Exec) step(s *State) stepResult {
 		e.set(f, in, &FuncV{Fn: fn, Env: env})
 		f.ip++
 	case *ssa.MakeSlice:
-		ln := e.concreteInt(s, e.get(s, f, in.Len), "make slice len")
-		cp := e.concreteInt(s, e.get(s, f, in.Cap), "make slice cap")
+		ln := e.concreteIntT(s, e.get(s, f, in.Len), in.Len.Type(), "make slice len")
+		cp := e.concreteIntT(s, e.get(s, f, in.Cap), in.Cap.Type(), "make slice cap")
 		et := under(in.Type()).(*types.Slice).Elem()
+		if ln < 0 || cp < ln || cp > 1<<24 {
+			panic(goPanic{fmt.Sprintf("makeslice: len out of range (%d, %d)", ln, cp)})
+		}
 		arr := make(ArrayV, cp)
 		z := zeroValue(et)
 		for i := range arr {
@@ -492,7 +495,7 @@ func (e *Exec) step(s *State) stepResult {
 		e.set(f, in, MapV{id})
 		f.ip++
 	case *ssa.MakeChan:
-		sz := e.concreteInt(s, e.get(s, f, in.Size), "chan size")
+		sz := e.concreteIntT(s, e.get(s, f, in.Size), in.Size.Type(), "chan size")
 		ct := under(in.Type()).(*types.Chan)
 		id := s.alloc(&ChanObj{Cap: sz, Elem: ct.Elem()})
 		e.set(f, in, ChanV{id})
@@ -578,6 +581,24 @@ func (e *Exec) concreteInt(s *State, v Value, what string) int {
 		panic(needConcrete{t, what})
 	}
 	return int(t.Signed())
+}
+
+func idxInt(idx *Term, t types.Type) int {
+	if _, signed, ok := intWidth(t); ok && !signed {
+		return int(idx.Val)
+	}
+	return int(idx.Signed())
+}
+
+// concreteIntT: like concreteInt but honours the signedness of the Go type
+// (an unsigned 8-bit 248 is 248, not -8).
+func (e *Exec) concreteIntT(s *State, v Value, t types.Type, what string) int {
+	if tt, ok := v.(*Term); ok && tt.IsConst() {
+		if _, signed, ok := intWidth(t); ok && !signed {
+			return int(tt.Val)
+		}
+	}
+	return e.concreteInt(s, v, what)
 }
 
 // needConcrete: an operation needs a concrete integer but got a symbolic one;
@@ -1439,7 +1460,7 @@ func (e *Exec) execIndexAddr(s *State, f *Frame, in *ssa.IndexAddr) stepResult {
 		panic(unsupported(fmt.Sprintf("IndexAddr on %T", x)))
 	}
 	if idx.IsConst() {
-		i := int(idx.Signed())
+		i := idxInt(idx, in.Index.Type())
 		if i < 0 || i >= n {
 			panic(goPanic{fmt.Sprintf("index out of range [%d] with length %d", i, n)})
 		}
@@ -1482,7 +1503,7 @@ func (e *Exec) execIndex(s *State, f *Frame, in *ssa.Index) stepResult {
 	switch v := x.(type) {
 	case ArrayV:
 		if idx.IsConst() {
-			i := int(idx.Signed())
+			i := idxInt(idx, in.Index.Type())
 			if i < 0 || i >= len(v) {
 				panic(goPanic{"index out of range"})
 			}
@@ -1495,7 +1516,7 @@ func (e *Exec) execIndex(s *State, f *Frame, in *ssa.Index) stepResult {
 			panic(unsupported("index of symbolic string"))
 		}
 		if idx.IsConst() {
-			i := int(idx.Signed())
+			i := idxInt(idx, in.Index.Type())
 			if i < 0 || i >= len(v.C) {
 				panic(goPanic{"string index out of range"})
 			}
@@ -1538,7 +1559,7 @@ func (e *Exec) sliceOp(s *State, f *Frame, in *ssa.Slice) Value {
 		if v == nil {
 			return def
 		}
-		return e.concreteInt(s, e.get(s, f, v), "slice bound")
+		return e.concreteIntT(s, e.get(s, f, v), v.Type(), "slice bound")
 	}
 	switch v := x.(type) {
 	case SliceV:
@@ -1663,7 +1684,7 @@ func (e *Exec) execLookup(s *State, f *Frame, in *ssa.Lookup) stepResult {
 		if sv.Sym != nil || !idx.IsConst() {
 			panic(unsupported("symbolic string lookup"))
 		}
-		i := int(idx.Signed())
+		i := idxInt(idx, in.Index.Type())
 		if i < 0 || i >= len(sv.C) {
 			panic(goPanic{"string index out of range"})
 		}
